@@ -300,6 +300,9 @@ type MonLog struct {
 	AfterSave  func(host string, uds []pb.Update)
 	SaveDelay  func() time.Duration
 	OnSaveSnapshots func(host string, before bool)
+	// OnSnapshotInstalled sees every snapshot record saved by the step worker, i.e. a
+	// snapshot received from another replica that raft accepted
+	OnSnapshotInstalled func(shard, replica, index uint64)
 	// OnViolation reports what the monitor itself decides (see RemoveEntriesTo)
 	OnViolation func(sig string, format string, args ...interface{})
 	// OnSnapshotRecord sees every locally created snapshot recorded in the log store
@@ -445,6 +448,13 @@ func (d *monDB) SaveRaftState(uds []pb.Update, shardID uint64) error {
 	err := d.ILogDB.SaveRaftState(uds, shardID)
 	if err == nil && content {
 		d.mon.record(uds)
+		if f := d.mon.OnSnapshotInstalled; f != nil {
+			for _, ud := range uds {
+				if !pb.IsEmptySnapshot(ud.Snapshot) && !ud.Snapshot.Witness && !ud.Snapshot.Dummy {
+					f(ud.ShardID, ud.ReplicaID, ud.Snapshot.Index)
+				}
+			}
+		}
 		if f := d.mon.AfterSave; f != nil {
 			f(d.mon.host, uds)
 		}
